@@ -24,7 +24,8 @@ for d in sorted(glob.glob(os.path.join(ROOT, "seeded", "C*"))):
     m = json.load(open(os.path.join(d, "meta.json")))
     rc, summ = ev.get(name, ("?", ""))
     verdict = {"1": "VIOLATION reported", "0": "**missed**", "3": "harness error"}.get(rc, "not run")
-    first = "missed at first" if "MISSED at first" in m["checks_run"] else "caught as built"
+    first = "missed at first" if ("MISSED at first" in m["checks_run"] or "not reported at first" in m["checks_run"]) \
+        else "caught as built"
     rows.append((name, m["property"], ", ".join(os.path.basename(f) for f in m["files_changed"]),
                  m["needs_to_manifest"], first, verdict, m["checks_run"]))
 out = ["# Seeded breaking changes", "",
@@ -48,3 +49,17 @@ out += ["", f"{len(rows)} changes; {n_first} were caught by the checks as they w
         f"{sum(1 for r in rows if r[5] == 'VIOLATION reported')} are reported by the current quick checks."]
 open(os.path.join(ROOT, "seeded", "README.md"), "w").write("\n".join(out) + "\n")
 print(len(rows), "rows")
+
+# compact table for DESIGN.md (between the SEEDTABLE markers)
+dp = os.path.join(ROOT, "DESIGN.md")
+d = open(dp).read()
+b, e_ = "<!-- SEEDTABLE:BEGIN -->", "<!-- SEEDTABLE:END -->"
+if b in d and e_ in d:
+    lines = ["| change | breaks | first evaluation | reported now by |", "|---|---|---|---|"]
+    for name, prop, files, needs, first, verdict, run in rows:
+        m = json.load(open(os.path.join(ROOT, "seeded", name, "meta.json")))
+        by = ", ".join(m.get("detect_with", [prop])) + " quick" if verdict == "VIOLATION reported" else verdict
+        short = needs if len(needs) < 150 else needs[:147] + "..."
+        lines.append(f"| {name} | {short} | {first} | {by} |")
+    d = d[:d.index(b) + len(b)] + "\n" + "\n".join(lines) + "\n" + d[d.index(e_):]
+    open(dp, "w").write(d)
